@@ -189,3 +189,7 @@ func init() {
 		Direct: c01Direct,
 	})
 }
+
+func regionFor(table, start, stop string, id uint64) hrpc.RegionInfo {
+	return mkRegion(table, []byte(start), []byte(stop), id).obj
+}
